@@ -715,14 +715,14 @@ Proof.
   pose proof (reparent_inv B s d r p tgt Inv Hr EP Ht) as I1.
   set (s1 := incref B tgt (set_ref B r (fr_with_parent (gref s r) (Some tgt)) s)) in *.
   assert (L1 : led [] [] s s1). { split; [intro; auto|]. unfold hc; cbn. split; intros; lia. }
-  destruct (decref_ok B bstep p s1 d I1) as (I2 & _ & K2).
-  set (s2 := snd (decref_ B bstep p s1)) in *.
-  pose proof (sc_add_child (fr_node (gref s2 tgt)) r newnm s2) as SC3.
-  set (s3 := add_child B (fr_node (gref s2 tgt)) r newnm s2) in *.
-  destruct (sc_ok s2 s3 d SC3 I2) as (I3 & L3).
-  pose proof (sc_bcall B bstep (BRenamed (fr_file (gref s3 r)) (fr_file (gref s3 tgt)) newnm) s3) as SC4.
-  destruct (sc_ok s3 _ d SC4 I3) as (I4 & L4). split; auto.
-  eapply led_equiv; [|exact (led_trans _ _ _ _ _ _ _ (led_trans _ _ _ _ _ _ _ (led_trans _ _ _ _ _ _ _ L1 (led_keeps _ _ K2)) L3) L4)]. led_arith.
+  pose proof (sc_add_child (fr_node (gref s1 tgt)) r newnm s1) as SC2.
+  set (s2 := add_child B (fr_node (gref s1 tgt)) r newnm s1) in *.
+  destruct (sc_ok s1 s2 (p :: d) SC2 I1) as (I2 & L2).
+  pose proof (sc_bcall B bstep (BRenamed (fr_file (gref s2 r)) (fr_file (gref s2 tgt)) newnm) s2) as SC3.
+  set (s3 := snd (bcall_ B bstep (BRenamed (fr_file (gref s2 r)) (fr_file (gref s2 tgt)) newnm) s2)) in *.
+  destruct (sc_ok s2 s3 (p :: d) SC3 I2) as (I3 & L3).
+  destruct (decref_ok B bstep p s3 d I3) as (I4 & _ & K4). split; auto.
+  eapply led_equiv; [|exact (led_trans _ _ _ _ _ _ _ (led_trans _ _ _ _ _ _ _ (led_trans _ _ _ _ _ _ _ L1 L2) L3) (led_keeps _ _ K4))]. led_arith.
 Qed.
 
 Lemma rwn_loop_ok n nm tgt newnm m : forall held s d,
